@@ -4,5 +4,6 @@ here = os.path.dirname(os.path.dirname(os.path.abspath(__file__)))
 t = subprocess.run([sys.executable, os.path.join(here, "tools", "seedcheck.py"), "table"], capture_output=True, text=True).stdout
 p = os.path.join(here, "DESIGN.md")
 s = open(p).read()
-s = re.sub(r"<!-- SEEDED-TABLE-BEGIN -->.*<!-- SEEDED-TABLE-END -->", "<!-- SEEDED-TABLE-BEGIN -->\n" + t.strip() + "\n<!-- SEEDED-TABLE-END -->", s, flags=re.S)
+block = "<!-- SEEDED-TABLE-BEGIN -->\n" + t.strip() + "\n<!-- SEEDED-TABLE-END -->"
+s = re.sub(r"<!-- SEEDED-TABLE-BEGIN -->.*<!-- SEEDED-TABLE-END -->", lambda m: block, s, flags=re.S)   # (a function: the table contains backslashes)
 open(p, "w").write(s)
